@@ -61,6 +61,40 @@ theorem expLines_has (ds : Dataset) (a : Nat) : (expLines ds).has (K 4 a) = deci
 theorem expNodes_has (ds : Dataset) (a : Nat) : (expNodes ds).has (K 1 a) = decide (a < ds.nStops) := by
   unfold expNodes; rw [mkNodes_has]
 
+theorem getLines_enc (ds : Dataset) (h : Enc ds) : getLines (encode ds) (expIds 2 ds.nAgencies) = (0, expLines ds) := by
+  unfold getLines
+  simp only [encode]
+  rw [linesLoop_enc (expIds 2 ds.nAgencies) ds.nAgencies (expIds_has 2 ds.nAgencies) ds.lines 0 [] h.lineAgency
+    (by intro p hp; simp at hp)]
+  rfl
+
+theorem getPaths_enc (ds : Dataset) (h : Enc ds) : getPaths (encode ds) (expLines ds) (expNodes ds) = (0, expPaths ds) := by
+  unfold getPaths
+  simp only [encode]
+  rw [pathsLoop_enc (expLines ds) (expNodes ds) ds.lines.length ds.nStops (expLines_has ds) (expNodes_has ds) ds.paths 0 []
+    h.paths (by intro p hp; simp at hp)]
+  rfl
+
+theorem getScenarios_enc (ds : Dataset) (h : Enc ds) :
+    getScenarios (encode ds) ⟨(expIds 3 ds.nServices).has, (expLines ds).has, (expIds 2 ds.nAgencies).has, (expNodes ds).has⟩ = (0, expScen ds) := by
+  unfold getScenarios
+  simp only [encode]
+  rw [scenLoop_enc _ ds.nServices ds.lines.length ds.nAgencies (expIds_has 3 ds.nServices) (expLines_has ds)
+    (expIds_has 2 ds.nAgencies) ds.scenarios 0 [] h.scen (by intro p hp; simp at hp)]
+  rfl
+
+theorem schedules_enc (ds : Dataset) (h : Enc ds) :
+    schedLoop (encode ds).lineFiles (expIds 3 ds.nServices) (expPaths ds) (expLines ds) {} = finalSch ds := by
+  simp only [encode]
+  unfold expLines finalSch
+  exact schedLoop_enc ds (expIds 3 ds.nServices) (expIds_has 3 ds.nServices) h.trips ds.lines 0 {} (by omega) (by intro j; simp)
+
+/-- the tables `C16_roundtrip` states -/
+def expTD (ds : Dataset) : TD :=
+  { agencies := expIds 2 ds.nAgencies, services := expIds 3 ds.nServices, nodes := expNodes ds,
+    lines := expLines ds, paths := expPaths ds, scenarios := expScen ds,
+    trips := (finalSch ds).trips, conns := (finalSch ds).conns, ub := false }
+
 /-- **C16 round trip**: the loaders, run on the records that encode `ds`, build exactly these tables. -/
 theorem C16_roundtrip (ds : Dataset) (h : Enc ds) :
     loadAll (encode ds) =
@@ -70,30 +104,8 @@ theorem C16_roundtrip (ds : Dataset) (h : Enc ds) :
   have hN : getNodes (encode ds) = (0, expNodes ds) := getNodes_enc ds h.foot
   have hA : getIds (encode ds).agencies = (0, expIds 2 ds.nAgencies) := getIds_enc 2 ds.nAgencies
   have hS : getIds (encode ds).services = (0, expIds 3 ds.nServices) := getIds_enc 3 ds.nServices
-  have hL : getLines (encode ds) (expIds 2 ds.nAgencies) = (0, expLines ds) := by
-    unfold getLines
-    simp only [encode]
-    rw [linesLoop_enc (expIds 2 ds.nAgencies) ds.nAgencies (expIds_has 2 ds.nAgencies) ds.lines 0 [] h.lineAgency
-      (by intro p hp; simp at hp)]
-    rfl
-  have hP : getPaths (encode ds) (expLines ds) (expNodes ds) = (0, expPaths ds) := by
-    unfold getPaths
-    simp only [encode]
-    rw [pathsLoop_enc (expLines ds) (expNodes ds) ds.lines.length ds.nStops (expLines_has ds) (expNodes_has ds) ds.paths 0 []
-      h.paths (by intro p hp; simp at hp)]
-    rfl
-  have hSc : getScenarios (encode ds) ⟨(expIds 3 ds.nServices).has, (expLines ds).has, (expIds 2 ds.nAgencies).has, (expNodes ds).has⟩
-      = (0, expScen ds) := by
-    unfold getScenarios
-    simp only [encode]
-    rw [scenLoop_enc _ ds.nServices ds.lines.length ds.nAgencies (expIds_has 3 ds.nServices) (expLines_has ds)
-      (expIds_has 2 ds.nAgencies) ds.scenarios 0 [] h.scen (by intro p hp; simp at hp)]
-    rfl
-  have hT : schedLoop (encode ds).lineFiles (expIds 3 ds.nServices) (expPaths ds) (expLines ds) {} = finalSch ds := by
-    simp only [encode]
-    unfold expLines finalSch
-    exact schedLoop_enc ds (expIds 3 ds.nServices) (expIds_has 3 ds.nServices) h.trips ds.lines 0 {} (by omega) (by intro j; simp)
-  simp [loadAll, Gen.loadOrder, loadFrom, applyCall, hN, hA, hS, hL, hP, hSc, hT, ENOENT, finalSch_ub]
+  simp [loadAll, Gen.loadOrder, loadFrom, applyCall, hN, hA, hS, getLines_enc ds h, getPaths_enc ds h, getScenarios_enc ds h, schedules_enc ds h,
+    ENOENT, finalSch_ub]
 
 /-! ### the connections, in file order -/
 
